@@ -21,7 +21,9 @@ ID = 'C33'
 LEVEL = 'exploration'
 RULE = ("Seed-driven DRAW programs: 1-6 DRAW statements of 1-10 commands each, counts from "
         "{omitted, 0, 1, small, up to 300, negative}, scales 1..255 (mostly not multiples of 4), "
-        "prefixes B/N/BN on a third of the moves, absolute and relative M, C inside the mode's "
+        "prefixes B/N/BN on a third of the moves (40% of them separated from their move by a "
+        "separator and/or 0-2 non-move commands C, S, X-without-moves; sometimes left dangling at the "
+        "end of a DRAW string), absolute and relative M, C inside the mode's "
         "attribute range, X substrings nested up to 2 deep (by name; and by VARPTR$), numeric "
         "arguments (counts, both coordinates of M, S, C) as literals, =var; or =VARPTR$(var), each "
         "optionally signed, through integer/single/double variables and array elements holding "
@@ -36,8 +38,15 @@ ASSUMPTIONS = [
     "and labelled",
     "pixel comparison with the LINE replay is skipped when a segment endpoint leaves "
     "-32768..32767 (LINE would raise Overflow there)",
-    "a prefix is always directly followed by its movement command (manual syntax [B][N] movement); "
-    "B/N before X, S or C are not generated",
+    "a B/N prefix stays pending until the next movement command: colour (C), scale (S), a "
+    "substring without moves (X), ';' and blanks standing between the prefix and its move do not "
+    "use it up (GW-BASIC clears its draw flags in the move routine only; the manual calls B and N "
+    "prefixes of 'the movement commands'); 0-2 such commands are generated between a prefix and "
+    "its move (label prefix-separated). Not generated, because GW-BASIC and per-call flags may "
+    "differ: a prefix followed by a substring that itself moves, and a prefix left pending at the "
+    "end of a substring",
+    "a prefix at the very end of a DRAW string with no move after it has no effect on later DRAW "
+    "statements (the flags are locals of one DRAW call by construction; label prefix-trailing)",
     "the first DRAW and every DRAW after an intervening PSET start with an explicit C command, so "
     "nothing is assumed about the colour a DRAW inherits from other statements",
     "variables used as arguments hold integral values (conversion of fractions is not specified)",
@@ -90,7 +99,10 @@ class Pen(object):
                 self.colour = self.value(c['n'], variables)
             elif k == 'X':
                 self.run(subs[c['sub']], subs, variables, depth + 1)
+            elif k == 'PRE':
+                pass            # trailing prefix without a move: flags are per DRAW call, no effect
             elif k == 'M':
+                self.run(c.get('mid', []), subs, variables, depth)
                 x, y = self.value(c['x'], variables), self.value(c['y'], variables)
                 if c['rel']:
                     nx, ny = self.x + trunc4(self.scale, x), self.y + trunc4(self.scale, y)
@@ -98,6 +110,7 @@ class Pen(object):
                     nx, ny = x, y
                 self._move(nx, ny, c.get('pre', ''))
             else:
+                self.run(c.get('mid', []), subs, variables, depth)
                 n = self.value(c.get('n'), variables)
                 if n is None:
                     n = 1
@@ -127,6 +140,14 @@ def _arg_text(arg):
     return ['%s=%s;' % (sign, arg['var'])]
 
 
+def _prefix_parts(c):
+    """Prefix of a move, then optional separator and 0..2 non-move commands before the move."""
+    pre = c.get('pre', '')
+    if not pre:
+        return []
+    return [pre + c.get('presep', '')] + render_cmds(c.get('mid', []))
+
+
 def render_cmds(cmds):
     """Command list -> list of parts (str | ('vp', name))."""
     parts = []
@@ -136,13 +157,16 @@ def render_cmds(cmds):
         if k in ('S', 'C'):
             parts.append(k)
             parts.extend(_arg_text(c['n']))
+        elif k == 'PRE':
+            parts.append(c['pre'])
         elif k == 'X':
             if c.get('form') == 'vp':
                 parts.extend(['X', ('vp', c['sub'])])
             else:
                 parts.append('X%s;' % c['sub'])
         elif k == 'M':
-            parts.append(c.get('pre', '') + 'M')
+            parts.extend(_prefix_parts(c))
+            parts.append('M')
             if c['rel']:
                 # the sign in front of x is what makes the move relative
                 x, y = c['x'], c['y']
@@ -161,7 +185,8 @@ def render_cmds(cmds):
                 parts.append(',')
                 parts.extend(_arg_text(c['y']))
         else:
-            parts.append(c.get('pre', '') + k)
+            parts.extend(_prefix_parts(c))
+            parts.append(k)
             if c.get('n') is not None:
                 parts.extend(_arg_text(c['n']))
         parts.append(sep)
@@ -269,6 +294,8 @@ def check_case(case):
     # another array when two arrays exist. Cases in that region report under their own key.
     def _vp_array_use(cmds):
         for c in cmds:
+            if _vp_array_use(c.get('mid', [])):
+                return True
             if c['c'] == 'X':
                 if (c.get('form') == 'vp' and '(' in c['sub']) or _vp_array_use(subs[c['sub']]):
                     return True
@@ -351,6 +378,7 @@ def check_case(case):
 
         def walk(cmds):
             for c in cmds:
+                walk(c.get('mid', []))
                 allcmds.append(c)
                 if c['c'] == 'X':
                     walk(subs[c['sub']])
@@ -359,6 +387,10 @@ def check_case(case):
                 walk(st_['draw'])
         moves = [c for c in allcmds if c['c'] in DIRS or c['c'] == 'M']
         has_prefix = any(c.get('pre') for c in moves)
+        if any(c.get('pre') and (c.get('mid') or c.get('presep')) for c in moves):
+            res.label('prefix-separated')
+        if any(c['c'] == 'PRE' for c in allcmds):
+            res.label('prefix-trailing')
         scales = [c for c in allcmds if c['c'] == 'S']
         uses_x = any(c['c'] == 'X' for c in allcmds)
         refs = [c.get(f) for c in allcmds for f in ('n', 'x', 'y')
@@ -423,7 +455,26 @@ def _ref(r, variables, signs=('', '', '+', '-', '-'), ok=None):
     return {'var': nm, 'form': r.choice(['name', 'name', 'vp']), 'sign': sg}
 
 
-def _cmds(r, variables, subnames, N, W, H, n, need_colour=False):
+def _between(r, pre, variables, nomove, N):
+    """0..2 non-move commands (and/or a separator) between a prefix and its move."""
+    if not pre or r.random() < 0.6:
+        return {}
+    mid = []
+    for _ in range(r.choice([0, 1, 1, 1, 2, 2])):
+        k = r.choice(['S', 'C', 'C'] + (['X', 'X'] if nomove else []))
+        sep = r.choice(['', '', ';', ' '])
+        if k == 'S':
+            mid.append({'c': 'S', 'n': r.choice([1, 2, 3, 5, 6, 7, 8, 9, 12, 16, 21]), 'sep': sep})
+        elif k == 'C':
+            mid.append({'c': 'C', 'n': r.randrange(0, N), 'sep': sep})
+        else:
+            mid.append({'c': 'X', 'sub': r.choice(nomove), 'form': r.choice(['name', 'vp']),
+                        'sep': r.choice(['', ';'])})
+    return {'mid': mid, 'presep': r.choice(['', '', ';', ' ', '; '])}
+
+
+def _cmds(r, variables, subnames, N, W, H, n, need_colour=False, nomove=(), trailing=False):
+    nomove = list(nomove)
     cmds = []
     if need_colour:
         cmds.append({'c': 'C', 'n': r.randrange(1, N), 'sep': r.choice(['', ';', ' '])})
@@ -432,9 +483,11 @@ def _cmds(r, variables, subnames, N, W, H, n, need_colour=False):
         sep = r.choice(['', '', ';', ' '])
         if k == 'mv':
             pre = r.choice(['', '', '', '', 'B', 'N', 'BN'])
-            cmds.append({'c': r.choice('UDLREFGH'), 'pre': pre, 'n': _count(r, variables), 'sep': sep})
+            cmds.append(dict({'c': r.choice('UDLREFGH'), 'pre': pre, 'n': _count(r, variables),
+                              'sep': sep}, **_between(r, pre, variables, nomove, N)))
         elif k == 'M':
-            pre = r.choice(['', '', '', 'B', 'N'])
+            pre = r.choice(['', '', '', 'B', 'N', 'BN'])
+            between = _between(r, pre, variables, nomove, N)
             if r.random() < 0.55:
                 x = r.choice([0, 1, 3, 5, 7, r.randrange(0, 40), -r.randrange(1, 40)])
                 y = r.choice([0, 1, 3, 5, 7, r.randrange(0, 40), -r.randrange(1, 40)])
@@ -442,8 +495,8 @@ def _cmds(r, variables, subnames, N, W, H, n, need_colour=False):
                     x = _ref(r, variables, signs=('+', '-', '-'))       # M+=X;  M-=X;
                 if variables and r.random() < 0.3:
                     y = _ref(r, variables)                              # ,=Y;  ,-=Y;  ,+=Y;
-                cmds.append({'c': 'M', 'pre': pre, 'rel': True, 'x': x, 'y': y,
-                             'ysign': r.choice(['', '+']), 'sep': sep})
+                cmds.append(dict({'c': 'M', 'pre': pre, 'rel': True, 'x': x, 'y': y,
+                                  'ysign': r.choice(['', '+']), 'sep': sep}, **between))
             else:
                 x = r.choice([r.randrange(0, W), r.randrange(0, W), 0, W - 1, W + 5])
                 y = r.choice([r.randrange(0, H), r.randrange(0, H), 0, H - 1, H + 5])
@@ -453,7 +506,8 @@ def _cmds(r, variables, subnames, N, W, H, n, need_colour=False):
                     x = _ref(r, variables, signs=('',), ok=inside) or x
                 if variables and r.random() < 0.25:
                     y = _ref(r, variables, signs=('', '-'), ok=inside) or y
-                cmds.append({'c': 'M', 'pre': pre, 'rel': False, 'x': x, 'y': y, 'sep': sep})
+                cmds.append(dict({'c': 'M', 'pre': pre, 'rel': False, 'x': x, 'y': y, 'sep': sep},
+                                 **between))
         elif k == 'S':
             s = r.choice([1, 2, 3, 5, 6, 7, 9, 10, 11, 13, 4, 8, 12, 16, r.randrange(1, 40),
                           r.randrange(1, 256)])
@@ -468,6 +522,8 @@ def _cmds(r, variables, subnames, N, W, H, n, need_colour=False):
         else:
             cmds.append({'c': 'X', 'sub': r.choice(subnames), 'form': r.choice(['name', 'vp']),
                          'sep': r.choice(['', ';'])})
+    if trailing and r.random() < 0.08:
+        cmds.append({'c': 'PRE', 'pre': r.choice(['B', 'N', 'BN'])})
     return cmds
 
 
@@ -483,7 +539,15 @@ def build_case(mname, seed, ndraw, ncmd):
         for nm in r.sample(NUMVARS, r.randrange(1, 4)):
             variables[nm] = r.choice([0, 0, 1, 2, 3, 5, 7, 10, 17, -3, -8, -1, -12, -2, -25,
                                       r.randrange(0, 60), -r.randrange(1, 60)])
-    subs, order, strvars = {}, [], []
+    subs, order, strvars, nomove = {}, [], [], []
+    if r.random() < 0.4:
+        # a substring without move commands: may stand between a prefix and its move
+        subs['V$'] = [{'c': r.choice('SC'), 'n': 0, 'sep': r.choice(['', ';'])}
+                      for _ in range(r.randrange(1, 3))]
+        for c in subs['V$']:
+            c['n'] = r.choice([1, 2, 3, 5, 6, 8, 10, 13]) if c['c'] == 'S' else r.randrange(0, N)
+        order.append('V$')
+        nomove = ['V$']
     if r.random() < 0.45:
         names = SUBNAMES[:r.randrange(1, 4)]
         if r.random() < 0.4:
@@ -495,7 +559,7 @@ def build_case(mname, seed, ndraw, ncmd):
             else:
                 names = names + ['O$(1)']   # ... or after it (then it holds a real substring)
         for nm in names:
-            subs[nm] = _cmds(r, variables, list(order), N, W, H, r.randrange(1, 5))
+            subs[nm] = _cmds(r, variables, list(order), N, W, H, r.randrange(1, 5), nomove=nomove)
             order.append(nm)
     steps = []
     need_colour = True
@@ -507,7 +571,7 @@ def build_case(mname, seed, ndraw, ncmd):
             steps.append({'lineto': [r.randrange(0, W), r.randrange(0, H), r.randrange(0, N)]})
             need_colour = True
         steps.append({'draw': _cmds(r, variables, order, N, W, H, r.randrange(1, ncmd + 1),
-                                    need_colour)})
+                                    need_colour, nomove=nomove, trailing=True)})
         need_colour = False
     start = [r.choice([W // 2, r.randrange(0, W), r.randrange(W // 4, 3 * W // 4)]),
              r.choice([H // 2, r.randrange(0, H), r.randrange(H // 4, 3 * H // 4)]),
@@ -542,6 +606,28 @@ REGRESSIONS = [
 ]
 
 REGRESSIONS += [
+    # wave-4 seed that survived an earlier version: prefix flags reset after every command, so a
+    # C/S/X between a prefix and its move used the prefix up (BC2R10, NS8U3, BXV$;R10, BNS4C1M+3,4)
+    {'mode': 'cga/1', 'ap': 0, 'vp': 0, 'start': [100, 80, 0], 'vars': {}, 'strvars': [],
+     'subs': {'V$': [{'c': 'C', 'n': 1, 'sep': ''}]}, 'sub_order': ['V$'],
+     'steps': [
+         {'draw': [{'c': 'C', 'n': 1, 'sep': ''},
+                   {'c': 'R', 'pre': 'B', 'presep': '', 'mid': [{'c': 'C', 'n': 2, 'sep': ''}],
+                    'n': 10, 'sep': ''},
+                   {'c': 'D', 'pre': '', 'n': 2, 'sep': ''}]},
+         {'draw': [{'c': 'U', 'pre': 'N', 'presep': '', 'mid': [{'c': 'S', 'n': 8, 'sep': ''}],
+                    'n': 3, 'sep': ''},
+                   {'c': 'S', 'n': 4, 'sep': ''}, {'c': 'R', 'pre': '', 'n': 2, 'sep': ''}]},
+         {'draw': [{'c': 'R', 'pre': 'B', 'presep': ';', 'mid': [
+                       {'c': 'X', 'sub': 'V$', 'form': 'name', 'sep': ''}], 'n': 10, 'sep': ''},
+                   {'c': 'M', 'pre': 'BN', 'presep': ' ', 'mid': [
+                       {'c': 'S', 'n': 4, 'sep': ''}, {'c': 'C', 'n': 1, 'sep': ';'}],
+                    'rel': True, 'x': 3, 'y': 4, 'ysign': '', 'sep': ''},
+                   {'c': 'M', 'pre': 'B', 'presep': '', 'mid': [{'c': 'C', 'n': 3, 'sep': ''}],
+                    'rel': False, 'x': 130, 'y': 90, 'sep': ''},
+                   {'c': 'D', 'pre': '', 'n': 2, 'sep': ''},
+                   {'c': 'PRE', 'pre': 'BN'}]},
+         {'draw': [{'c': 'L', 'pre': '', 'n': 7, 'sep': ''}]}]},
     # seeded mutation that survived an earlier version: the sign in front of a variable reference
     # was consumed but not applied (U-=N; E-=K%(2); M+=X;,-=Y;)
     {'mode': 'cga/1', 'ap': 0, 'vp': 0, 'start': [160, 100, 1],
@@ -577,6 +663,7 @@ REGRESSIONS += [
 ]
 
 KILLS = [
+    'wave-4 seed /tmp/seed_out4/C33 (prefix flags reset after every command, so C/S/X between a prefix and its move use it up), tools/seedtest.py C33 --no-tests = full quick tier: exit 1, pen.position + draw.pixels + draw.x-substring.array; also caught by the new REGRESSIONS case (survived before 0-2 non-move commands were generated between a prefix and its move). All earlier kills re-screened with the new generator: still killed within 31 cases',
     'independently seeded mutation, VERIF_REPO=<scratch> ./check C33 --unit programs (full quick counts): MLParser.parse_number applies the sign only to literals (U-=N; moves the wrong way) -> exit 1, pen.position, draw.pixels, draw.err (S-=var), draw.x-substring.array; also caught by the new REGRESSIONS case (survived before signed variable references were generated)',
     'final code, VERIF_REPO=<scratch> ./check C33 (VERIF_GFX_SCALE=0.15): truncation -> rounding -> exit 1, pen.position + draw.pixels ; B leaking to the next command -> exit 1, draw.pixels',
     'in-process screen (same check_case/strategy as ./check, Hypothesis unit only, stops at first failure)',
